@@ -393,7 +393,7 @@ def decode_gates(fb, ctx):
     ok = False
     for c in pk:
         la = mirq.operand_leaves(fb, mb, c.args[1])
-        ok = ok or (sum(1 for l in la if "PublicKey::algorithm" in l) >= 1 and _alg_from_blocks(fb, mb))
+        ok = ok or (sum(1 for l in la if "PublicKey::algorithm" in l) >= 1 and (_alg_from_blocks(fb, mb) or (any(re.search(r"authority(\.\w+)*\.next_key$", l) for l in la) and any(re.search(r"blocks(\.\w+)*\.next_key$", l) for l in la))))
     ctx.check(ok, "GATE", "carried secret parsed with the last block's next-key algorithm", "GATE|secret-algorithm", "PrivateKey::from_bytes is not given an algorithm that follows the last block's next key", where)
 
 
@@ -711,6 +711,12 @@ def wire_rules(fb, ctx):
     cbs = [s for _, s in mirq.aggregates(db, r"crypto::Block$")]
     ctx.floor("crypto::Block aggregates in deserialize", len(cbs), 2)
     want_r = {"data": ".block", "next_key": ".next_key", "signature": ".signature", "version": ".version"}
+    # which aggregate is the authority block: the one whose data comes from the decoded `.authority` (not its position in the body:
+    # after inlining a helper its blocks come last)
+    def who_of(s_):
+        lv_ = mirq.operand_leaves(fb, db, mirq.agg_field(s_, "data"))
+        return "authority" if any(".authority" in l for l in lv_) and not any(".blocks" in l for l in lv_) else "blocks"
+    cbs = sorted(cbs, key=lambda s_: 0 if who_of(s_) == "authority" else 1)
     for n, s in enumerate(cbs):
         who = "authority" if n == 0 else "blocks"
         for f, suffix in want_r.items():
@@ -752,7 +758,8 @@ def third_party_signer_rules(fb, ctx):
     tr = [s for _, s in mirq.aggregates(fc, r"third_party::ThirdPartyRequest$")]
     if tr:
         lv = mirq.operand_leaves(fb, fc, mirq.agg_field(tr[0], "previous_signature"))
-        ctx.check(mirq.has_leaf(lv, "arg1.authority.signature") and any(l.startswith("arg1.blocks") and l.endswith(".signature") for l in lv) and any("last" in l for l in lv), "EXTSIGN", "request.previous_signature = signature of the token's last block", "EXTSIGN|request", f"depends on {sorted(l for l in lv if l.startswith('arg') or 'last' in l)}", f"{fc['file']}:{fc['line']}")
+        via_acc = any(l.endswith("SerializedBiscuit::last_block") for l in lv) and any(l == "arg1" or l.startswith("arg1") for l in lv) and any(l.endswith(".signature") for l in lv)
+        ctx.check((mirq.has_leaf(lv, "arg1.authority.signature") and any(l.startswith("arg1.blocks") and l.endswith(".signature") for l in lv) and any("last" in l for l in lv)) or via_acc, "EXTSIGN", "request.previous_signature = signature of the token's last block", "EXTSIGN|request", f"depends on {sorted(l for l in lv if l.startswith('arg') or 'last' in l)}", f"{fc['file']}:{fc['line']}")
 
 
 def append_third_party_rules(fb, ctx):
@@ -781,8 +788,9 @@ def append_third_party_rules(fb, ctx):
     # arguments of the verification: payload, previous key, last block signature, {expected key, response signature}, version 1, hashing mode
     a = ve[0].args
     la = [mirq.operand_leaves(fb, b, x) for x in a]
-    prev_ok = mirq.has_leaf(la[2], "arg1.container.authority.signature") and any(l.startswith("arg1.container.blocks") and l.endswith(".signature") for l in la[2])
-    key_ok = mirq.has_leaf(la[1], "arg1.container.authority.next_key") and any(l.startswith("arg1.container.blocks") and l.endswith("next_key") for l in la[1])
+    acc = lambda ls, f_: any(l.endswith("SerializedBiscuit::last_block") for l in ls) and any(l.startswith("arg1.container") for l in ls) and any(l.endswith(f_) for l in ls)     # self.container.last_block().<f>
+    prev_ok = (mirq.has_leaf(la[2], "arg1.container.authority.signature") and any(l.startswith("arg1.container.blocks") and l.endswith(".signature") for l in la[2])) or acc(la[2], ".signature")
+    key_ok = (mirq.has_leaf(la[1], "arg1.container.authority.next_key") and any(l.startswith("arg1.container.blocks") and l.endswith("next_key") for l in la[1])) or acc(la[1], "next_key")
     ext = [s for _, s in mirq.aggregates(b, r"crypto::ExternalSignature$")]
     ext_ok = bool(ext) and mirq.has_leaf(mirq.operand_leaves(fb, b, mirq.agg_field(ext[0], "public_key")), "arg2") and any(l.startswith("arg3") for l in mirq.operand_leaves(fb, b, mirq.agg_field(ext[0], "signature")))
     ver_ok = a[4].get("k") == "const" and a[4].get("int") == 1
